@@ -22,7 +22,7 @@ import time
 import vlib
 import serverlib as sl
 
-THEOREMS = ["C08_deadlock_free", "C08_terminates", "C08_live", "C08_old_deadlocks",
+THEOREMS = ["C08_deadlock_free", "C08_terminates", "C08_live", "C08_tasks_never_blocked", "C08_old_deadlocks",
             "C08_trace_checker_sound"]
 TRUSTED = [
     "Coq 8.16.1 kernel (coqc; vm_compute only in C08_old_deadlocks / the non-vacuity example); no axioms (Print Assumptions: closed under the global context)",
@@ -150,7 +150,7 @@ def burst_sessions(rng, n):
         if i == 0:      # the history of defect D9, verbatim
             steps = [{"open": "main.td", "text": MAIN1}, {"change": "main.td", "text": MAIN2}, req_step("definition")]
         out.append({"name": "burst #%d (%d steps)" % (i, len(steps)), "critical": True,
-                    "script": base_script(steps, [])})
+                    "script": base_script(sl.cap_in_flight(steps), [])})
     return out
 
 
